@@ -42,6 +42,8 @@ type Scenario struct {
 
 	SinkFail       bool // every export call: Choose(success, failure)
 	SinkHonoursCtx bool // export returns ctx.Err() when its context is done
+	SinkDelay      time.Duration // >0: every export call takes this much virtual time (slow downstream)
+	SinkDelays     []time.Duration // per export (by order of entry); overrides SinkDelay where present
 	FreeTimers     bool
 	MaxFires       int
 	Tracing        bool
@@ -203,6 +205,9 @@ func (w *World) sink(ctx context.Context, items []ItemObs) error {
 	if w.shutdownReturned {
 		w.violate("C11", "export #%d entered after Shutdown returned", e.Seq)
 	}
+	if dl := w.sinkDelay(e.Seq); dl > 0 && s != nil {
+		s.SleepUntil(s.Now() + int64(dl))
+	}
 	var err error
 	// one scheduling point inside the export call: arbitrary export latency is
 	// "this thread is not scheduled for arbitrarily long"
@@ -226,6 +231,13 @@ func (w *World) sink(ctx context.Context, items []ItemObs) error {
 	}
 	w.inflight[e.Combo]--
 	return err
+}
+
+func (w *World) sinkDelay(seq int) time.Duration {
+	if seq < len(w.sc.SinkDelays) {
+		return w.sc.SinkDelays[seq]
+	}
+	return w.sc.SinkDelay
 }
 
 func nopSettings(tp trace.TracerProvider) processor.Settings {
